@@ -847,14 +847,14 @@ pub mod __verif {
         stack: &[(Enc, Option<usize>)],
         cap: usize,
     ) -> Vec<(DifferenceIndex, Option<(&'a P, &'a R)>)> {
-        let mut nodes = Vec::with_capacity(cap.max(stack.len()));
+        let mut nodes = Vec::with_capacity(cap);
         for (e, lr) in stack {
             nodes.push((dec(*e), lr.and_then(|i| r.table[i].prefix_value())));
         }
         nodes
     }
     fn mk_plain(stack: &[Enc], cap: usize) -> Vec<DifferenceIndex> {
-        let mut nodes = Vec::with_capacity(cap.max(stack.len()));
+        let mut nodes = Vec::with_capacity(cap);
         for e in stack {
             nodes.push(dec(*e));
         }
